@@ -8,6 +8,7 @@
    both products of the two coefficient matrices within 1e-6 of the identity. *)
 From Coq Require Import ZArith QArith List.
 From PrismV Require Import Mat.CoeffCheck.
+From Coq Require Reals. From Flocq Require Core IEEE754.BinarySingleNaN. From PrismV Require Num.F64 Mat.Mat3F Mat.Dot3.
 From PrismGen Require Import Coeffs.
 
 Theorem C03_srgb : SpaceOK srgb_data pub_srgb.
@@ -22,3 +23,22 @@ Print Assumptions C03_prophotorgb.
 Theorem C03_displayp3 : SpaceOK displayp3_data pub_p3.
 Proof. exact (space_ok_sound _ _ displayp3_ok). Qed.
 Print Assumptions C03_displayp3.
+
+(* float32 closeness of one row of Color.ToXYZ / ColorFromXYZ (partial: the 2e-6 round trip over all
+   float32 triples composes two such applications with the certified coefficients and is judged by the
+   oracle): for EVERY finite coefficients and components whose products stay below 2^K the computed row
+   is finite and within ((1+u)^3-1)(|P1|+|P2|) + ((1+u)^2-1)|P3| + 13 eta of the exact sum, u = 2^-24 *)
+Section RowCloseness.
+Import Coq.Reals.Reals Flocq.Core.Core Flocq.IEEE754.BinarySingleNaN PrismV.Num.F64 PrismV.Mat.Mat3F PrismV.Mat.Dot3.
+Local Open Scope R_scope.
+Theorem C03_row_float32_close_partial : forall (K : Z) (a b c x y z : f32),
+  (-149 <= K)%Z /\ (K + 2 < 128)%Z ->
+  is_finite a = true -> is_finite b = true -> is_finite c = true ->
+  is_finite x = true -> is_finite y = true -> is_finite z = true ->
+  let P1 := B2R x * B2R a in let P2 := B2R y * B2R b in let P3 := B2R z * B2R c in
+  Rabs P1 <= bpow radix2 K -> Rabs P2 <= bpow radix2 K -> Rabs P3 <= bpow radix2 K ->
+  is_finite (dot3_32 a b c x y z) = true /\
+  Rabs (B2R (dot3_32 a b c x y z) - (P1 + P2 + P3)) <= bound3 (u 24) (eta 24 128) P1 P2 P3.
+Proof. exact dot3_32_close. Qed.
+End RowCloseness.
+Print Assumptions C03_row_float32_close_partial.
